@@ -6,6 +6,7 @@ import (
 	"go/token"
 	"go/types"
 	"strconv"
+	"strings"
 
 	bmodel "github.com/reedom/convergen/pkg/builder/model"
 	gmodel "github.com/reedom/convergen/pkg/generator/model"
@@ -147,7 +148,7 @@ func (b *assignmentBuilder) matchStructFieldAndStruct(
 		}
 	}
 
-	return b.structFieldAndStructGettersAndFields(lhs, rhs)
+	return b.structFieldAndStructGettersAndFields(lhs, rhs, additionalArgs)
 }
 
 // matchStructFieldAndStruct matches a struct field on the left-hand side of an assignment
@@ -155,7 +156,11 @@ func (b *assignmentBuilder) matchStructFieldAndStruct(
 // If a match is found, returns an Assignment that represents the field assignment.
 // If no match is found, returns a NoMatchField or SkipField if the field is to be skipped
 // based on the options set in the AssignmentBuilder.
-func (b *assignmentBuilder) structFieldAndStructGettersAndFields(lhs bmodel.Node, rhsStruct bmodel.Node) (gmodel.Assignment, error) {
+func (b *assignmentBuilder) structFieldAndStructGettersAndFields(
+	lhs bmodel.Node,
+	rhsStruct bmodel.Node,
+	additionalArgs []bmodel.Node,
+) (gmodel.Assignment, error) {
 	opts := b.opts
 	methodPosStr := b.fset.Position(b.methodPos)
 	lhsExpr := lhs.AssignExpr()
@@ -181,7 +186,12 @@ func (b *assignmentBuilder) structFieldAndStructGettersAndFields(lhs bmodel.Node
 			}
 		}
 
-		if c, ok := b.castNode(lhs.ExprType(), rhs); ok {
+		// A notation that addresses a member of this struct field (":skip N.V", ":map X N.W", ...)
+		// can only be honoured when the struct is copied member by member, not as a whole.
+		memberWise := util.IsStructType(lhs.ExprType()) && util.IsStructType(rhs.ExprType()) &&
+			b.hasNotationBelow(lhs, 0)
+
+		if c, ok := b.castNode(lhs.ExprType(), rhs); ok && !memberWise {
 			rhsExpr := c.AssignExpr()
 			logger.Printf("%v: assignment found: %v = %v", methodPosStr, lhsExpr, rhsExpr)
 			a = gmodel.SimpleField{LHS: lhsExpr, RHS: rhsExpr, Error: c.ReturnsError()}
@@ -198,7 +208,7 @@ func (b *assignmentBuilder) structFieldAndStructGettersAndFields(lhs bmodel.Node
 			if rhs.ObjNullable() {
 				nestStruct.NullCheckExpr = rhs.NullCheckExpr()
 			}
-			nestStruct.Contents, err = b.structToStruct(lhs, rhs, nil)
+			nestStruct.Contents, err = b.structToStruct(lhs, rhs, additionalArgs)
 			if err == nil && 0 < len(nestStruct.Contents) {
 				a = nestStruct
 			} else {
@@ -320,7 +330,10 @@ func (b *assignmentBuilder) createWithTemplatedMapper(
 	mapper *option.NameMatcher,
 ) (gmodel.Assignment, error) {
 	mappedNode := func() bmodel.Node {
-		args := []bmodel.Node{rhs}
+		root := rhs
+		for ; root.Parent() != nil; root = root.Parent() {
+		}
+		args := []bmodel.Node{root}
 		args = append(args, additionalArgs...)
 		rhsNode, ok := b.resolveTemplatedExpr(mapper.Src(), args)
 		if !ok {
@@ -379,6 +392,53 @@ func (b *assignmentBuilder) castNode(lhsType types.Type, rhs bmodel.Node) (c bmo
 		return
 	}
 	return nil, false
+}
+
+// hasNotationBelow reports whether a :skip, :conv, :map or :literal notation addresses a
+// member (at any depth) of the struct field lhs.
+func (b *assignmentBuilder) hasNotationBelow(lhs bmodel.Node, depth int) bool {
+	prefix := lhs.MatcherExpr() + "."
+	below := func(m *option.IdentMatcher) bool {
+		path := m.ExprAt(0)
+		for i := 1; i < m.PathLen(); i++ {
+			path += "." + m.ExprAt(i)
+		}
+		return strings.HasPrefix(path, prefix)
+	}
+	for _, converter := range b.opts.Converters {
+		if below(converter.Dst()) {
+			return true
+		}
+	}
+	for _, mapper := range b.opts.NameMapper {
+		if below(mapper.Dst()) {
+			return true
+		}
+	}
+	for _, mapper := range b.opts.TemplatedNameMapper {
+		if below(mapper.Dst()) {
+			return true
+		}
+	}
+	for _, setter := range b.opts.Literals {
+		if below(setter.Dst()) {
+			return true
+		}
+	}
+	if len(b.opts.SkipFields) == 0 || 8 < depth || !util.IsStructType(lhs.ExprType()) {
+		return false
+	}
+
+	// A skip pattern may be a regular expression: test it against the members.
+	found := false
+	bmodel.IterateStructFields(lhs, func(member bmodel.Node) (done bool) {
+		if !b.isStructFieldAccessible(lhs, member.ObjName()) {
+			return
+		}
+		found = b.opts.ShouldSkip(member.MatcherExpr()) || b.hasNotationBelow(member, depth+1)
+		return found
+	})
+	return found
 }
 
 // isAddressable reports whether the address of the expression that node represents can be
